@@ -1224,7 +1224,7 @@ func runL2(args []string) {
 	rep.Rule = "queries from the grammar over the zoo's type names and tags (3/4 conventional statements, 1/4 soup/mutations), " +
 		"samples and arguments built by reflection with perturbations (missing/extra/duplicate (also in pointer form with other values)/shadow/pointer/nil/anonymous/one bulk argument cut to one element; forms T,*T,[]T,[]*T,*[]T,**T); " +
 		"every statement also run: with permuted samples and arguments, interleaved with another Query of the same Statement, after a first run (other values, the unperturbed arguments, the same number of inputs split differently), " +
-		"with sibling statements prepared between Prepare and run, with texts differing in white space only prepared first; plus directed scenarios (very long SQL, concurrent first use of types, first-use order, concurrent growth of input counts); " +
+		"with sibling statements prepared between Prepare and run, with texts differing in white space only prepared first; plus directed scenarios (very long SQL, concurrent first use of types, first-use order, concurrent growth of input counts, concurrent Prepare of sixteen different texts, bulk-insert Queries of one Statement built before either runs); " +
 		"non-trivial = Prepare succeeded and at least one input or output was bound, or a rejection by Prepare/Query; distinct by hash of query+sample types+argument values"
 	r := rng.New(*seed)
 	g := qgen.New(r.Fork(), zooSchema())
@@ -1297,6 +1297,21 @@ func runL2(args []string) {
 				Detail: fmt.Sprintf("a statement with %d slice elements was not sent as the query text with its placeholders: %d bytes beginning %q", n, len(res.sql), firstN(res.sql, 80)),
 				Holds: map[string]bool{"C01": false}})
 		}
+	}
+	// directed (round 13): concurrent Prepare of different texts; Queries built before either runs
+	if *replay == "" {
+		for _, w := range concPrepare(60, 16) {
+			f := Finding{Case: map[string]any{"directed": "concurrent Prepare of 16 different texts"}, Kind: "holds", Detail: w}
+			rep.addHolds("C01", f)
+			rep.addHolds("C16", f)
+		}
+		hyp["concurrent-prepare-rounds"] = 60
+		for _, w := range buildBuildRun() {
+			f := Finding{Case: map[string]any{"directed": "bulk-insert Queries of one Statement built before either runs"}, Kind: "holds", Detail: w}
+			rep.addHolds("C04", f)
+			rep.addHolds("C16", f)
+		}
+		hyp["build-build-run-orders"] = 7
 	}
 	hyp["concurrent-growth-calls"] = concurrentGrowth(rep)
 	hyp["concurrent-first-use-types"] = concurrentFirstUse(rep, cl, r.Fork())
